@@ -1611,3 +1611,87 @@ func c02Round4(c *Ctx) {
 		c.Check(seq != nil && len(pend) > 0 && len(fin) > 0 && hit == nil, "C02.dbptr", fname(fn)+":a pending root's nodes are looked up in its pending keyspace first", site, "every finalized-keyspace lookup after the sequence number is known is for sequence number 0 or follows the pending lookup", "GetNode reads the finalized keyspace for a root that is still pending before (or instead of) that root's own pending keyspace: a second fork's pointer (version, index) resolves to the first fork's node, which is accepted without a hash check — the tree opened at one fork's root has the other fork's contents")
 	}
 }
+
+// c04IterErr (F66): a tree iterator stops at the first node it cannot obtain (a remote peer that errors or sends a bad
+// proof, an evicted node that cannot be fetched) and reports that through Err(); Valid() just turns false. Every
+// function that walks an iterator and then reports success must have looked at Err() — otherwise a truncated listing
+// is handed out as complete.
+func c04IterErr(c *Ctx) {
+	const rule = "C04.errdrop"
+	n := 0
+	for _, fn := range c.P.ModFuncs {
+		if fn.Blocks == nil || fn.Parent() != nil {
+			continue
+		}
+		pp := short(fpkgPath(fn))
+		if strings.HasPrefix(pp, "oasis-test-runner") || strings.HasSuffix(pp, "/tests") || strings.HasPrefix(pp, "oasis-node/cmd/debug") {
+			continue
+		}
+		var iters []ssa.Value
+		for _, call := range callsIn(fn) {
+			v := call.Value()
+			if v == nil || namedOf(v.Type()) != "storage/mkvs.Iterator" {
+				continue
+			}
+			iters = append(iters, v)
+		}
+		if len(iters) == 0 {
+			continue
+		}
+		// functions with an error result only (the others cannot report it anyway and are listed separately)
+		if errResultIndex(fn) < 0 {
+			continue
+		}
+		for _, it := range iters {
+			var valid, errs, moves []ssa.Instruction
+			for _, call := range callsIn(fn) {
+				if !call.Common().IsInvoke() || !sameValue(call.Common().Value, it, 0) {
+					continue
+				}
+				switch call.Common().Method.Name() {
+				case "Valid":
+					valid = append(valid, call)
+				case "Err":
+					errs = append(errs, call)
+				case "Seek", "Next", "Rewind":
+					moves = append(moves, call)
+				}
+			}
+			if len(valid) == 0 {
+				continue // handed to someone else
+			}
+			n++
+			c.Analysed[fname(fn)] = true
+			inst := fname(fn) + ":success after walking an iterator only via its Err()"
+			var hit ssa.Instruction
+			for _, r := range Returns(fn) {
+				// a return that reports success outright (nil error), reachable after a Valid() call without passing Err()
+				if r.Block() == fn.Recover || !isNilConst(retErrVal(r)) {
+					continue
+				}
+				// errors arise in Seek/Next; Valid() answering true means the last move succeeded
+				cut := NewCut().AddInstr(errs...)
+				for _, v := range valid {
+					if es, ok := BoolEdges(v.(ssa.CallInstruction), 0, true); ok {
+						cut.AddEdges(es...)
+					}
+				}
+				for _, m := range moves {
+					if h := Reach(fn, m, nil, isInstr(r), cut); h != nil {
+						hit = h
+					}
+				}
+			}
+			if hit == nil {
+				c.OK(rule, inst, c.P.Pos(fn.Pos()), "every success return after the walk passes Err()")
+				continue
+			}
+			if reason, ok := c.Tabled("c04_itererr", fname(fn)); ok {
+				c.TabledOK(rule, inst, c.P.InstrPos(hit), reason)
+				continue
+			}
+			c.Fail(rule, inst, c.P.InstrPos(hit), "the function walks a tree iterator and can report success without having looked at the iterator's Err(): when the walk stops early (a remote peer errors or sends a bad proof mid-iteration, a node cannot be fetched) the truncated result is returned as complete with a nil error")
+		}
+	}
+	c.Floor(rule, n, 20, "functions that walk a tree iterator and return an error")
+}
